@@ -3,6 +3,8 @@ package adapt
 import (
 	"context"
 	"fmt"
+	"os"
+	"path/filepath"
 	"sync"
 	"sync/atomic"
 	"time"
@@ -16,7 +18,7 @@ import (
 
 const (
 	poolSize    = 5
-	numFixtures = 4
+	numFixtures = 5
 )
 
 // fixtureSpec: plugin indices by pool position (ascending, so chain order == pool order),
@@ -28,17 +30,23 @@ var fixtureSpecs = [numFixtures]struct {
 	names [poolSize]string
 	// noStop: the pool plugin does not subscribe to StopContainer (stop requests skip it)
 	noStop [poolSize]bool
+	// launched: the pool plugin is pre-installed: the Adaptation launches it (see launched.go)
+	launched [poolSize]bool
 }{
 	// fixture 0: all indices share their first digit (code that compares plugins by a prefix
 	// of "<index>-<name>" shows here for every pair)
-	{[poolSize]string{"10", "11", "12", "13", "14"}, [poolSize]int{0, 1, 2, 3, 4}, baseNames, [poolSize]bool{}},
-	{[poolSize]string{"10", "20", "30", "40", "50"}, [poolSize]int{4, 3, 2, 1, 0}, baseNames, [poolSize]bool{}},
-	{[poolSize]string{"05", "06", "50", "98", "99"}, [poolSize]int{2, 0, 4, 1, 3}, baseNames, [poolSize]bool{false, false, true, false, false}},
+	{[poolSize]string{"10", "11", "12", "13", "14"}, [poolSize]int{0, 1, 2, 3, 4}, baseNames, [poolSize]bool{}, [poolSize]bool{}},
+	{[poolSize]string{"10", "20", "30", "40", "50"}, [poolSize]int{4, 3, 2, 1, 0}, baseNames, [poolSize]bool{}, [poolSize]bool{}},
+	{[poolSize]string{"05", "06", "50", "98", "99"}, [poolSize]int{2, 0, 4, 1, 3}, baseNames, [poolSize]bool{false, false, true, false, false}, [poolSize]bool{}},
 	// twins: pool plugins 1 and 2 (and 3 and 4) register under the same index AND name (two
 	// instances of one plugin binary). They are still two different plugins. Equal indices
 	// leave their relative order to the implementation; the fixture observes it once (see
 	// getFixture) and is only used if it is the registration order.
-	{[poolSize]string{"10", "20", "20", "30", "30"}, [poolSize]int{0, 1, 2, 3, 4}, [poolSize]string{"e", "twin", "twin", "pair", "pair"}, [poolSize]bool{}},
+	{[poolSize]string{"10", "20", "20", "30", "30"}, [poolSize]int{0, 1, 2, 3, 4}, [poolSize]string{"e", "twin", "twin", "pair", "pair"}, [poolSize]bool{}, [poolSize]bool{}},
+	// pre-installed and external plugins mixed: pool plugins 0, 2 and 3 are launched by the
+	// Adaptation from its plugin directory, 1 and 4 connect to the socket
+	{[poolSize]string{"10", "20", "30", "40", "50"}, [poolSize]int{0, 4, 2, 1, 3}, [poolSize]string{"e" + launchedSuffix, "d", "c" + launchedSuffix, "b" + launchedSuffix, "a"},
+		[poolSize]bool{}, [poolSize]bool{true, false, true, true, false}},
 }
 
 var baseNames = [poolSize]string{"e", "d", "c", "b", "a"}
@@ -51,17 +59,21 @@ type execution struct {
 	pod     *api.PodSandbox
 	sub     *api.Container // the container as submitted by the runtime (pristine copy)
 
-	mu       sync.Mutex
-	seenCtr  map[int]*api.Container      // pool index -> container shown
-	seenRes  map[int]*api.LinuxResources // pool index -> resources shown (update)
-	seenPod  map[int]*api.PodSandbox
-	invoked  []int // pool indices in invocation order
-	resp     any
-	err      error
-	duration time.Duration
+	mu      sync.Mutex
+	seenCtr map[int]*api.Container      // pool index -> container shown
+	seenRes map[int]*api.LinuxResources // pool index -> resources shown (update)
+	seenPod map[int]*api.PodSandbox
+	invoked []int // pool indices in invocation order
+	// invokedAt: wall clock of each entry of invoked (fixtures with launched plugins, whose
+	// records are merged in afterwards)
+	invokedAt []int64
+	resp      any
+	err       error
+	duration  time.Duration
 }
 
 type fixture struct {
+	recDir  string // where launched plugins write what they were shown ("" = no launched plugins)
 	rt      *fx.Runtime
 	plugins [poolSize]*fx.Plugin
 	execs   sync.Map // container id -> *execution
@@ -94,6 +106,9 @@ func dropFixture(n int, f *fixture) {
 			}
 		}
 		f.rt.Stop()
+		if f.recDir != "" {
+			os.RemoveAll(filepath.Dir(f.recDir))
+		}
 	}()
 }
 
@@ -129,15 +144,27 @@ func getFixture(n int) (*fixture, error) {
 	if fixtures[n] != nil {
 		return fixtures[n], nil
 	}
-	rt, err := fx.NewRuntime()
+	spec := fixtureSpecs[n]
+	var opts []adaptation.Option
+	recDir := ""
+	if spec.launched != [poolSize]bool{} {
+		plugins, records, err := launchedDir(n)
+		if err != nil {
+			return nil, err
+		}
+		opts, recDir = append(opts, adaptation.WithPluginPath(plugins)), records
+	}
+	rt, err := fx.NewRuntime(opts...)
 	if err != nil {
 		return nil, err
 	}
-	f := &fixture{rt: rt}
+	f := &fixture{rt: rt, recDir: recDir}
 	w := &fx.ActiveWatcher{}
-	spec := fixtureSpecs[n]
 	for _, pi := range spec.order {
 		pi := pi
+		if spec.launched[pi] {
+			continue // started, configured and synchronized by the Adaptation's Start()
+		}
 		p := &fx.Plugin{Name: spec.names[pi], Idx: spec.idx[pi]}
 		if spec.noStop[pi] {
 			m := api.ValidEvents
@@ -183,10 +210,13 @@ func getFixture(n int) (*fixture, error) {
 	ex := &execution{fixture: n, c: Case{Kind: "create"}, id: ids{self: fmt.Sprintf("order-probe-%d", n), tgt: map[string]string{}},
 		seenCtr: map[int]*api.Container{}, seenRes: map[int]*api.LinuxResources{}, seenPod: map[int]*api.PodSandbox{}}
 	f.execs.Store(ex.id.self, ex)
+	ex.pod = &api.PodSandbox{Id: "p", Annotations: map[string]string{}}
+	f.brief(ex)
 	// (a creation request: every plugin subscribes to it, and plugins are necessarily asked one
 	// after the other because each is shown what the earlier ones did)
-	_, err = rt.A.CreateContainer(context.Background(), &api.CreateContainerRequest{Pod: &api.PodSandbox{Id: "p"}, Container: &api.Container{Id: ex.id.self}})
+	_, err = rt.A.CreateContainer(context.Background(), &api.CreateContainerRequest{Pod: ex.pod, Container: &api.Container{Id: ex.id.self}})
 	f.execs.Delete(ex.id.self)
+	f.collect(ex)
 	inOrder := err == nil && len(ex.invoked) == poolSize
 	for k := 1; inOrder && k < len(ex.invoked); k++ {
 		// index order between different indices; equal indices in any order (judge follows
@@ -216,6 +246,7 @@ func (f *fixture) lookup(id string, pi int, pod *api.PodSandbox, ct *api.Contain
 	ex := v.(*execution)
 	ex.mu.Lock()
 	ex.invoked = append(ex.invoked, pi)
+	ex.invokedAt = append(ex.invokedAt, time.Now().UnixNano())
 	ex.seenCtr[pi] = proto.Clone(ct).(*api.Container)
 	if pod != nil {
 		ex.seenPod[pi] = proto.Clone(pod).(*api.PodSandbox)
@@ -287,6 +318,7 @@ func execute(c Case) ([]*execution, error) {
 		}
 		ex.pod = &api.PodSandbox{Id: "pod-" + ex.id.self, Name: "pod", Namespace: "ns", Annotations: map[string]string{"pa": "pv"}}
 		exs[k] = ex
+		f.brief(ex)
 		f.execs.Store(ex.id.self, ex)
 		wg.Add(1)
 		run := func() {
@@ -324,6 +356,7 @@ func execute(c Case) ([]*execution, error) {
 				ex.err = err
 			}
 			ex.duration = time.Since(t0)
+			f.collect(ex)
 		}
 		if shared != nil {
 			run()
